@@ -863,8 +863,20 @@ pub fn run_c08(tier: Tier, seed: u64) -> i32 {
                         break q;
                     }
                 },
-                // aggregates, mostly over joins (outer joins feeding multi-key GROUP BY is where spilled aggregation met join output)
-                3..=6 => g.q_agg(&db, 2),
+                // an outer join feeding a GROUP BY with many groups: under a limit the
+                // aggregate abandons its streaming attempt and executes its input again
+                3 => {
+                    let (a, b) = (&db[g.rng.usize(db.len())], &db[g.rng.usize(db.len())]);
+                    let jt = *g.rng.pick(&["LEFT", "FULL", "RIGHT", "LEFT"]);
+                    let keys = *g.rng.pick(&[("r0.d0", "r0.s0"), ("r0.id", "r0.s0"), ("r0.s0", "r0.i1"), ("r1.d0", "r1.s0"), ("r0.id", "r1.id")]);
+                    let on = *g.rng.pick(&[("j0", "i0"), ("i0", "i0"), ("i1", "j0"), ("id", "i0")]);
+                    // harness safety bound on the join's size (see qgen::JOIN_ROW_CAP)
+                    let on = if crate::qgen::pair_est(a, on.0, b, on.1) + (a.rows.len() + b.rows.len()) as f64 > crate::qgen::JOIN_ROW_CAP { ("id", "id") } else { on };
+                    let core = format!("SELECT {} AS c0, {} AS c1, COUNT(*) AS c2, MIN(r1.i1) AS c3 FROM {} AS r0 {} JOIN {} AS r1 ON r0.{} = r1.{} GROUP BY {}, {}", keys.0, keys.1, a.name, jt, b.name, on.0, on.1, keys.0, keys.1);
+                    GenQuery { sql: core.clone(), full_sql: core, keys: vec![], limit: None, offset: 0, tags: vec![format!("{} JOIN", jt), "group-by".into(), "outer-join-agg".into()], ncols: 4 }
+                }
+                // aggregates, mostly over joins
+                4..=6 => g.q_agg(&db, 2),
                 _ => g.q_simple(&db, 2),
             };
             let sql = q.engine_sql();
